@@ -133,7 +133,8 @@ def replay_iterative(ctx, beh, variant):
         ctx.violation('exception %s iterative_solve' % type(ex).__name__, {'beh': beh, 'variant': variant, 'error': repr(ex)})
         return
     want_it = beh['iterations'] if beh['outcome'] == 'converged' else math.inf
-    ok = (len(calls) == beh['calls'] and its == want_it and x is outputs[-1]
+    ret_ok = (x is outputs[-1]) if outputs else np.array_equal(x, x0 if x0 is not None else np.zeros(n))
+    ok = (len(calls) == beh['calls'] and its == want_it and ret_ok
           and (beh['outcome'] != 'limit' or out.getvalue().strip() != ''))
     if not ok:
         ctx.violation('iterative_solve-mismatch ' + sig, {'beh': beh, 'calls': len(calls), 'iterations': repr(its),
@@ -142,7 +143,7 @@ def replay_iterative(ctx, beh, variant):
 
 def check_iterative_exact_start(ctx):
     """numeric predicate: started at the exact solution (initial residual 0) iterative_solve must not raise and must
-    return a solution; whether it reports 0.. iterations or the limit is not judged"""
+    return a solution (the exact protocol -- return (x, 0) without calling step -- is part of IterDrivers.tla)"""
     from pyiga import solvers
     A = np.array([[2.0, 1.0], [1.0, 2.0]])
     xs = np.array([1.0, -1.0])
@@ -266,7 +267,7 @@ def build_hspace(hist, p, n0, dim, truncate, disparity, bdspecs, hist2=None):
 
 def on_boundary(hs, lv, mi, bdspecs):
     nd = hs.mesh(lv).numdofs
-    return any(mi[ax] == (0 if side == 0 else nd[ax] - 1) for ax, side in bdspecs)
+    return any(mi[ax] == (0 if side == 0 else nd[ax] - 1) for ax, side in (bdspecs or []))
 
 
 def check_hspace(ctx, hs, name, bd, thorough):
@@ -376,7 +377,7 @@ def run_hier(ctx, hists):
     pick = sorted(rng.choice(len(hists), size=min(len(hists), 24 if thorough else 8), replace=False).tolist())
     pick = sorted(set(pick) | {len(hists) - 1, len(hists) // 2})      # include a 3-level and a mid one
     n0 = 4
-    bd1 = [[(0, 0), (0, 1)], [(0, 0)], []]
+    bd1 = [[(0, 0), (0, 1)], [(0, 0)], [], None]
     bd2 = [[(0, 0), (0, 1), (1, 0), (1, 1)], [(1, 0), (0, 1)]]
     combos = []
     for j, hi in enumerate(pick):
@@ -384,7 +385,7 @@ def run_hier(ctx, hists):
         for p in ((1, 2, 3) if thorough else (2,) if j % 2 else (1,)):
             for trunc in (False, True):
                 for disp in ((np.inf, 1) if thorough or j % 3 == 0 else (np.inf,)):
-                    combos.append((1, hi, h, None, p, trunc, disp, bd1[(j + p) % 3]))
+                    combos.append((1, hi, h, None, p, trunc, disp, bd1[(j + p) % 4]))
         if j % (2 if thorough else 4) == 0:
             h2 = hists[pick[(j + 1) % len(pick)]]
             for trunc in (False, True):
